@@ -30,6 +30,19 @@ if [ -n "$FAILS" ]; then
     FAILS=$(grep -E '^--- FAIL' /tmp/seed/$ID.suite2.log | awk '{print $3}' | sort -u | paste -sd' ')
   done
 fi
+if [ -n "$FAILS" ]; then
+  # still failing: attribute to the change only if the same tests pass on the unchanged tree under the same load
+  git checkout -- .
+  PAT=$(echo $FAILS | tr ' ' '|')
+  /verif/tools/nstest.sh "$WT" -p 1 -run "^($PAT)\$" ./... > /tmp/seed/$ID.base.log 2>&1
+  BASEFAILS=$(grep -E '^--- FAIL' /tmp/seed/$ID.base.log | awk '{print $3}' | sort -u | paste -sd' ')
+  git apply /tmp/seed/$ID.confirm.patch
+  KEEP=""
+  for t in $FAILS; do
+    case " $BASEFAILS " in *" $t "*) echo "  ($t also fails on the unchanged tree under this load: not attributed to the change)";; *) KEEP="$KEEP $t";; esac
+  done
+  FAILS=$(echo $KEEP)
+fi
 mv /tmp/seed/$ID.demo.go "$DEMO"
 echo "$ID: demo-with-change exit=$W  demo-without exit=$WO  suite-fails='${FAILS}'"
 if [ $W -ne 0 ] && [ $WO -eq 0 ] && [ -z "$FAILS" ]; then
